@@ -12,10 +12,7 @@ namespace OsmVerif.Props.C08
 open OsmVerif.Gen.Pbf OsmVerif.Model.Pbf OsmVerif.Model.PbfScan
 
 /-- the replacement / overwrite statements, as read from the source -/
-def RU : Reuses :=
-  { node := { accept := [("Visible", .true_)], reject := [("Visible", .true_), ("Tags", .emptied)] },
-    way := { accept := [("Visible", .true_)], reject := [("Visible", .true_), ("Nodes", .emptied), ("Tags", .emptied)] },
-    rel := { accept := [("Visible", .true_)], reject := [("Visible", .true_), ("Members", .emptied), ("Tags", .emptied)] } }
+abbrev RU : Reuses := specReuses
 
 theorem reuses_eq : reuses = some RU := by decide
 
